@@ -30,7 +30,7 @@ func TestMain(m *testing.M) {
 		Property: "C16", Level: "exploration",
 		Rule: "rapid draws an initial content and 2..4 goroutine scripts of 3..8 operations over overlapping and disjoint keys: insert, delete, lookup, Iterate, GetChanges/GetChangeCount/GetDeletes/GetRoot, SaveChanges into a second store; the scripts start behind a barrier with drawn Gosched perturbation, under the race detector. Every operation is recorded with call/return stamps from one atomic counter and its result; porcupine checks the history against the sequential map model (insert, delete reporting present/absent, lookup, iterate = snapshot); after the join a sequential Iterate must equal the content the linearization ends in, and GetRoot must equal the independent reference root of that content (fixed version). " +
 			"A second generator damages the store (removes drawn nodes) and runs only readers (lookups, Iterate, HasMissingNodes, GetMissingNodeKeys, GetAllMissingNodes) concurrently: results must equal the sequential expectation and no race may be reported. " +
-			"Non-trivial = at least two writers on a shared key prefix overlapped in time with a reader (from the stamps); distinct = distinct (content, scripts).",
+			"A stress generator runs one writer with a fixed sequence against 2..48 readers that compare every GetChanges snapshot with a sequential reference table; the readers pause at the verif-tag yield point at the entry of the change collector's read methods. Non-trivial = at least two writers on a shared key prefix overlapped in time with a reader (from the stamps); distinct = distinct (content, scripts).",
 		Assumptions: []string{"schedules are whatever the Go scheduler plus perturbation produces: this check detects, it does not exhaust", "the trie version is fixed during a case (SetVersion is not among the concurrent operations the property lists)"},
 	})
 	ev.Main(m)
